@@ -147,6 +147,34 @@ func TestC07(t *testing.T) {
 			}
 			c.Ev.MarkExhaustive(fmt.Sprintf("%d index/property/call/statement forms x every ordered pair of %d values", len(forms), len(c07Values)))
 		})
+		// faults whose diagnostic quotes program text (a string, a name, a key) of every length and script:
+		// the diagnostic is written, whatever its size in bytes or characters
+		c.Sub("long-text-in-diagnostics", func(s *Sub) {
+			var k int64
+			P := bn.KwPrint
+			units := []string{"a", "ক", "ক\u09be", "é", "\U0001f600", "ab ", "য\u09bc"}
+			for _, n := range []int{1, 10, 50, 56, 57, 60, 63, 64, 65, 66, 67, 70, 85, 86, 100, 127, 128, 129, 150, 190, 199, 200, 201, 255, 256, 257, 300, 511, 512, 1000, 1024, 4096, 5000, 65536} {
+				for ui, u := range units {
+					k++
+					if !c.Mine(k) {
+						continue
+					}
+					text := strings.Repeat(u, n/len([]rune(u))+1)
+					text = string([]rune(text)[:n])
+					ident := strings.Repeat([]string{"a", "ক", "ব_"}[ui%3], n)
+					ident = string([]rune(ident)[:n])
+					q := "\"" + text + "\""
+					faults := []string{P + " -" + q + ";", P + " ~" + q + ";", P + " " + q + " - 1;", P + " 1 * " + q + ";", P + " " + q + " < 1;", P + " " + q + " & 1;", P + " " + q + "();", P + " " + q + "[0];", P + " " + q + ".k;",
+						bn.BDelKey + "(obj, " + q + ");", P + " arr[" + q + "];", P + " " + bn.BLen + "(" + q + ");", P + " " + bn.BAbs + "(" + q + ");", P + " " + bn.BKeys + "(" + q + ");", P + " " + bn.BSqrt + "(" + q + ", 1);",
+						P + " " + ident + ";", ident + " = 1;", P + " obj." + ident + ";", P + " obj." + ident + ".x;", ident + "();", bn.KwVar + " " + ident + " = 1; " + bn.KwVar + " " + ident + " = 2;",
+						bn.KwFun + " " + ident + "(p) { } " + ident + "();", "f(" + q + ", " + q + ");", P + " {" + ident + ": 1}.nope;"}
+					for _, f := range faults {
+						c.c07Program(s, "long-text-in-diagnostics", c07Prelude+P+" \"before\";\n"+f+"\n", "", true, true, fmt.Sprintf("text-%d", n))
+					}
+				}
+			}
+			c.Ev.MarkExhaustive("24 faulting statements that quote program text x 34 text lengths (1..65536 characters) x 7 character units (ASCII, Bangla with and without marks, Latin-1, astral, blanks)")
+		})
 		c.Sub("string-coercions", func(s *Sub) {
 			// a one-character string for every code point of the Bangla block (and a few other digit-like or
 			// unusual characters), alone and after a digit, pushed through every place that may read a string as a number
